@@ -4,6 +4,7 @@ import Goyang.Lemmas.TypesAssignFold
 import Goyang.Lemmas.TypesStrBridge
 import Goyang.Lemmas.TypesEnumRfc
 import Goyang.Lemmas.TypesFdRfc
+import Goyang.Lemmas.TypesSpecClaim
 /-
 C09: the enum table, bit table and fraction-digits of an error-free resolution agree with what the
 executable specification (`inherit k ls`) computes for the same derivation chain — for chains whose
@@ -188,5 +189,161 @@ theorem derives_builtin {reg : Registry} {root : Mod} {scope : List Stmt} {t : S
   | derived m td sc tt kind chain hbind _ _ =>
     rw [Goyang.Lemmas.Types.binds_not_builtin hbind] at hb
     cases hb
+
+/-- A type statement that names a built-in type, has no member types and whose own enum / bit members
+and fraction-digits are readable is inside the claim of the executable specification (used for
+examples whose `chainOf` the kernel cannot evaluate because of `String.toNat!`). -/
+theorem insideClaim_builtin {reg : Registry} {root : Mod} {scope : List Stmt} {t : Stmt}
+    (hb : builtinNames.contains t.arg = true) (hm : t.all "type" = [])
+    (hbind : ∃ k, bindType reg root scope t.arg = .builtin k)
+    (he : t.all "enum" ≠ [] → assignValues "value" (-2147483648) 2147483647 (t.all "enum") ≠ none)
+    (hbit : t.all "bit" ≠ [] → assignValues "position" 0 4294967295 (t.all "bit") ≠ none)
+    (hfd : ∀ a, t.argOf? "fraction-digits" = some a → ∃ n, a.toNat? = some n ∧ 1 ≤ n ∧ n ≤ 18) :
+    Goyang.Lemmas.TypesSpecClaim.InsideClaim reg (root, scope, t) := by
+  intro site w hs
+  have hsite : site = (root, scope, t) := by
+    induction hs with
+    | refl => rfl
+    | tail _ hbc ih =>
+      subst ih
+      obtain ⟨ut, hut, _⟩ := Goyang.Lemmas.TypesSpecBind.uses_of_builtin hb hbc
+      rw [hm] at hut
+      cases hut
+  intro hf
+  subst hsite
+  obtain ⟨k, hk⟩ := hbind
+  cases hf with
+  | ambiguous h => rw [hk] at h; cases h
+  | noType m td sc h _ => rw [hk] at h; cases h
+  | enumValues hne h => exact he hne h
+  | bitPositions hne h => exact hbit hne h
+  | fractionDigits a ha h =>
+    obtain ⟨n, hn, h1⟩ := hfd a ha
+    exact h n hn h1
+  | restated ut fuel vis k' ls hut _ _ => rw [hm] at hut; cases hut
+
+/-! ## A registry-level sufficient condition for `CanonArgs` -/
+
+/-- Every `value` / `position` / `fraction-digits` argument of the loaded set is canonically written. -/
+def CanonReg (reg : Registry) : Prop :=
+  ∀ m ∈ reg.mods, ∀ s ∈ descendants m.stmt,
+    (∀ a, s.argOf? "value" = some a → CanonInt a) ∧ (∀ a, s.argOf? "position" = some a → CanonInt a) ∧
+    (∀ a, s.argOf? "fraction-digits" = some a → CanonInt a)
+
+open Goyang.Lemmas.TypesFuel (child_below) in
+/-- The type statements of a derivation chain of a reference that stands in the loaded set stand in the loaded set. -/
+theorem derives_links_inSet {reg : Registry} {root : Mod} {scope : List Stmt} {t : Stmt} {kind : String} {chain : List Link}
+    (h : DerivesFrom reg root scope t kind chain) :
+    root ∈ reg.mods → t ∈ descendants root.stmt → (∀ s ∈ scope, s ∈ descendants root.stmt) →
+    ∀ r s t', Link.ty r s t' ∈ chain → r ∈ reg.mods ∧ t' ∈ descendants r.stmt := by
+  induction h with
+  | builtin _ =>
+    intro hroot ht _ r s t' hmem
+    rw [List.mem_singleton] at hmem
+    cases hmem
+    exact ⟨hroot, ht⟩
+  | @derived root scope t m td sc tt kind chain hbind htt _ ih =>
+    intro hroot ht hscope r s t' hmem
+    obtain ⟨hm, htd, hsc⟩ := Goyang.Lemmas.TypesSpecFuel.binds_inSet hroot hscope hbind
+    rcases List.mem_cons.mp hmem with h1 | h1
+    · cases h1
+      exact ⟨hroot, ht⟩
+    · rcases List.mem_cons.mp h1 with h2 | h2
+      · cases h2
+      · have htt' : tt ∈ td.subs := by
+          unfold Stmt.one? at htt
+          exact List.mem_of_find?_eq_some htt
+        refine ih hm (child_below htd htt') ?_ r s t' h2
+        intro x hx
+        rcases List.mem_cons.mp hx with rfl | hx
+        · exact htd
+        · exact hsc x hx
+
+theorem chainEnums_some {chain : List Link} {es : List Stmt} (h : chainEnums chain = some es) :
+    ∃ r s t, Link.ty r s t ∈ chain ∧ es = t.all "enum" := by
+  induction chain with
+  | nil => simp [chainEnums] at h
+  | cons link rest ih =>
+    cases link with
+    | td d =>
+      rw [chainEnums_td_cons] at h
+      obtain ⟨r, s, t, hm, he⟩ := ih h
+      exact ⟨r, s, t, List.mem_cons_of_mem _ hm, he⟩
+    | ty r s t =>
+      rw [chainEnums_ty_cons] at h
+      split at h
+      · obtain ⟨r', s', t', hm, he⟩ := ih h
+        exact ⟨r', s', t', List.mem_cons_of_mem _ hm, he⟩
+      · simp only [Option.some.injEq] at h
+        exact ⟨r, s, t, List.mem_cons_self, h.symm⟩
+
+theorem chainBits_some {chain : List Link} {bs : List Stmt} (h : chainBits chain = some bs) :
+    ∃ r s t, Link.ty r s t ∈ chain ∧ bs = t.all "bit" := by
+  induction chain with
+  | nil => simp [chainBits] at h
+  | cons link rest ih =>
+    cases link with
+    | td d =>
+      rw [chainBits_td_cons] at h
+      obtain ⟨r, s, t, hm, he⟩ := ih h
+      exact ⟨r, s, t, List.mem_cons_of_mem _ hm, he⟩
+    | ty r s t =>
+      rw [chainBits_ty_cons] at h
+      split at h
+      · obtain ⟨r', s', t', hm, he⟩ := ih h
+        exact ⟨r', s', t', List.mem_cons_of_mem _ hm, he⟩
+      · simp only [Option.some.injEq] at h
+        exact ⟨r, s, t, List.mem_cons_self, h.symm⟩
+
+theorem chainFd_some {chain : List Link} {f : Stmt} (h : chainFractionDigits chain = some f) :
+    ∃ r s t, Link.ty r s t ∈ chain ∧ t.one? "fraction-digits" = some f := by
+  induction chain with
+  | nil => simp [chainFractionDigits] at h
+  | cons link rest ih =>
+    cases link with
+    | td d =>
+      rw [chainFd_td_cons] at h
+      obtain ⟨r, s, t, hm, he⟩ := ih h
+      exact ⟨r, s, t, List.mem_cons_of_mem _ hm, he⟩
+    | ty r s t =>
+      cases hq : t.one? "fraction-digits" with
+      | none =>
+        rw [chainFd_ty_none hq] at h
+        obtain ⟨r', s', t', hm, he⟩ := ih h
+        exact ⟨r', s', t', List.mem_cons_of_mem _ hm, he⟩
+      | some f0 =>
+        rw [chainFd_ty_some hq] at h
+        simp only [Option.some.injEq] at h
+        subst h
+        exact ⟨r, s, t, List.mem_cons_self, hq⟩
+
+open Goyang.Lemmas.TypesFuel (child_below) in
+/-- In a loaded set all of whose integer arguments are canonically written, every derivation chain of
+a reference that stands in the set has canonical arguments. -/
+theorem canonArgs_of_canonReg {reg : Registry} (hc : CanonReg reg) {root : Mod} {scope : List Stmt} {t : Stmt}
+    (hroot : root ∈ reg.mods) (ht : t ∈ descendants root.stmt) (hscope : ∀ s ∈ scope, s ∈ descendants root.stmt)
+    {kind : String} {chain : List Link} (h : DerivesFrom reg root scope t kind chain) : CanonArgs chain := by
+  have hin := derives_links_inSet h hroot ht hscope
+  refine ⟨?_, ?_, ?_⟩
+  · intro es hes e he a ha
+    obtain ⟨r, s, t', hm, rfl⟩ := chainEnums_some hes
+    obtain ⟨hr, ht'⟩ := hin r s t' hm
+    have he' : e ∈ t'.subs := by
+      unfold Stmt.all at he
+      exact (List.mem_filter.mp he).1
+    exact (hc r hr e (child_below ht' he')).1 a ha
+  · intro bs hbs b hb a ha
+    obtain ⟨r, s, t', hm, rfl⟩ := chainBits_some hbs
+    obtain ⟨hr, ht'⟩ := hin r s t' hm
+    have hb' : b ∈ t'.subs := by
+      unfold Stmt.all at hb
+      exact (List.mem_filter.mp hb).1
+    exact (hc r hr b (child_below ht' hb')).2.1 a ha
+  · intro f hf
+    obtain ⟨r, s, t', hm, hq⟩ := chainFd_some hf
+    obtain ⟨hr, ht'⟩ := hin r s t' hm
+    have harg : t'.argOf? "fraction-digits" = some f.arg := by
+      unfold Stmt.argOf?; rw [hq]; rfl
+    exact (hc r hr t' ht').2.2 f.arg harg
 
 end Goyang.Lemmas.TypesAgreeFull
